@@ -67,6 +67,11 @@ add("C12", "model_checking", "NodeIO.tla models one step's writer plumbing acros
     "real steps (real scheduler, real command executor, real child processes printing counted patterns) are run for every combination of {stdout file, stderr file, output variable, script} x retry plans x sizes around the buffer and pipe boundaries, compared byte for byte, and judged by TLC (NodeIOObserve)",
     "trusted: TLC; the child emitter and the byte comparison in the rig; relaunch order forced through the gate hooks (benign order everywhere, the racy order in one pinned scenario)", "TLA+ model of the step IO plumbing (TLC) + matrix of real step executions with byte-exact comparison judged by TLC", "nodeio", "5/C12")
 
+add("C11", "model_checking", "Params.tla transcribes the parameter pipeline (render, the parser's regular expression and unquoting, stringify, recording with quoting, re-parse) over character classes; TLC checks both round trips for every structure of up to 2 parameters with values up to 3 characters; "
+    "the transcription is compared with the real parser on every string over the class alphabet up to length 6 (thorough 8); real DAGs are started and retried through the real loader and agent with probe steps, for 11 value classes x positional/named x default/at-start and 13 output payload classes, "
+    "and TLC judges what every consumer saw", "trusted: TLC; probe children; the retry is performed in-process the way cmd/retry.go does it; value fidelity on a class alphabet only (DESIGN.md section 6)",
+    "TLA+ transcription of the parameter pipeline (TLC) validated against the real parser + real start/retry runs with probes judged by TLC", "params", "5/C11")
+
 ALL = ["C%02d" % i for i in range(1, 21)]
 for p in ALL:
     if p not in CHECKS:
@@ -103,6 +108,8 @@ def main():
              "kind_free_text": "action-sequence driver around the real API handlers, client and stores with live status sockets and an argv stub; trace validation by TLC"},
             {"name": "nodeio", "path": "harness/rig/nodeio.go + spec/NodeIO.tla + spec/NodeIOObserve.tla", "serves_properties": ["C12", "C11"],
              "kind_free_text": "real steps with real child processes under the real scheduler; byte-exact output comparison; records judged by TLC"},
+            {"name": "params", "path": "harness/rig/params.go + spec/Params.tla + spec/ParamsObserve.tla", "serves_properties": ["C11"],
+             "kind_free_text": "tokenizer sweep through the real parser; real start + retry runs with probe steps; records judged by TLC"},
             {"name": "admit", "path": "harness/rig/admit.go + spec/Admission.tla + spec/AdmissionObserve.tla", "serves_properties": ["C14"],
              "kind_free_text": "graph enumerator around scheduler.NewExecutionGraph / agent.Run; records judged by TLC"},
         ],
